@@ -20,6 +20,7 @@ import (
 	"strconv"
 	"strings"
 	"time"
+	"unicode/utf8"
 
 	gojson "github.com/goccy/go-json"
 )
@@ -458,6 +459,7 @@ func runC01(o *Out) {
 		}
 	}
 	c01ModelCases(o)
+	c01TypedCases(o)
 	startAll := time.Now()
 	skip := 0
 	for attempt := 0; attempt < 25; attempt++ {
@@ -641,6 +643,112 @@ func (j *c01J) realise(omitted bool) (reflect.Type, reflect.Value) {
 		}
 		return st, v
 	}
+}
+
+// the typed encoding semantics (coq/Model/EncTyped.v, op c01.typed) beside Marshal and encoding/json: generated
+// types and values of the fragment bool / integers / strings / interface{} / pointers / slices / arrays / maps with
+// string keys / structs
+func c01TypedCases(o *Out) {
+	r := o.rng
+	n := 2500
+	if o.tier == "thorough" {
+		n = 40000
+	}
+	c02mNoOmitempty = true
+	defer func() { c02mNoOmitempty = false }()
+	for i := 0; i < n; i++ {
+		var t reflect.Type
+		if i%3 == 0 {
+			t = c02mType(r, 3)
+		} else {
+			t = c02mStruct(r, 2)
+		}
+		if tgKnownBadAnywhere(reflect.PtrTo(t), 0) != "" {
+			continue
+		}
+		v := reflect.New(t)
+		tgValue(r, v.Elem(), 0, []int{0, 20, 40}[i%3], false)
+		c02mSanitize(r, v.Elem(), 0)
+		var tw, vw strings.Builder
+		c02mTypeWire(&tw, t)
+		if !c02mValWire(&vw, v.Elem()) {
+			continue
+		}
+		for how := 0; how < 2; how++ {
+			if c01CrashClass(t, v, how) != "" {
+				continue
+			}
+			o.current(map[string]string{"property": "C01", "type": clipN(t.String(), 600), "value": c01Describe(t, v), "typed_model_case": "1"})
+			var arg interface{} = v.Elem().Interface()
+			if how == 1 {
+				arg = v.Interface()
+			}
+			want, werr := stdjson.Marshal(arg)
+			got, err := c01Safe(func() ([]byte, error) { return gojson.Marshal(arg) })
+			if werr != nil {
+				continue
+			}
+			res := string(got)
+			if err != nil {
+				res = "ERR " + err.Error()
+			}
+			if res != string(want) {
+				if cls := c01TypedKnown(t, v); cls != "" {
+					o.known(cls, clipN(t.String(), 200))
+					continue
+				}
+			}
+			if err == nil && tgSameJSON(got, want) {
+				want = got // the same text up to the tolerated spellings of a token (\b and \u0008)
+			}
+			o.emit("A", "c01.typed", [][]byte{[]byte(tw.String()), []byte(vw.String()), []byte(strconv.Itoa(how))}, []byte(res), want, true)
+			o.count("typed_model_cases", 1)
+		}
+	}
+}
+
+// shapes of the recorded encoder findings that the fragment can reach
+func c01TypedKnown(t reflect.Type, v reflect.Value) string {
+	if c01HasInvalidUTF8MapKey(v, 0) {
+		return "MapKeyInvalidUTF8Order"
+	}
+	return ""
+}
+
+func c01HasInvalidUTF8MapKey(v reflect.Value, depth int) bool {
+	if depth > 20 || !v.IsValid() {
+		return false
+	}
+	switch v.Kind() {
+	case reflect.Ptr, reflect.Interface:
+		if v.IsNil() {
+			return false
+		}
+		return c01HasInvalidUTF8MapKey(v.Elem(), depth+1)
+	case reflect.Slice, reflect.Array:
+		for i := 0; i < v.Len(); i++ {
+			if c01HasInvalidUTF8MapKey(v.Index(i), depth+1) {
+				return true
+			}
+		}
+	case reflect.Map:
+		it := v.MapRange()
+		for it.Next() {
+			if it.Key().Kind() == reflect.String && !utf8.ValidString(it.Key().String()) {
+				return true
+			}
+			if c01HasInvalidUTF8MapKey(it.Value(), depth+1) {
+				return true
+			}
+		}
+	case reflect.Struct:
+		for i := 0; i < v.NumField(); i++ {
+			if c01HasInvalidUTF8MapKey(v.Field(i), depth+1) {
+				return true
+			}
+		}
+	}
+	return false
 }
 
 func c01ModelCases(o *Out) {
